@@ -572,7 +572,8 @@ PROPS["C04"] = PropSpec(simple_dict_prop(c04_ops, PREFIX_KINDS, "prefix", phases
                         _PART, "prefix search equals the contiguous specification range", _ASSUME)
 def c05_streams(tier, rng):
     base = simple_dict_prop(c05_ops, SUBSTR_KINDS, "substr", phases=("built", "loaded", "loaded2"))(tier, rng)
-    return base + [StreamSet("scale", "asan", scale_cases(tier, rng, scale_ops_substr, kinds=SUBSTR_KINDS), timeout=900)]
+    return base + [StreamSet("fm-layer", "asan", fm_cases(tier, rng, 30 if tier == "thorough" else 8), phase2=fm_phase2, timeout=90),
+                   StreamSet("scale", "asan", scale_cases(tier, rng, scale_ops_substr, kinds=SUBSTR_KINDS), timeout=900)]
 
 
 PROPS["C05"] = PropSpec(c05_streams,
@@ -1453,6 +1454,58 @@ def rpdac_cases(tier, rng, k):
             hs = int(len(S) * (1 + (ov * 1.0 / 100.0)))
             cases.append(("hq_%s_%d" % (name, ov), "rpdac", "HASHRPDAC", {"ov": ov, "hs": hs}, S, [["hd", qh], ["reload"], ["hd", qh]]))
             cases.append(("hf_%s_%d" % (name, ov), "rpdac", "HASHRPF", {"ov": ov, "hs": hs}, S, [["hf", qh], ["reload"], ["hf", qh]]))
+    return cases
+
+
+
+def fm_phase2(case, impl_lines):
+    """The FM-index exported by the real code -> the Lean validator: the exported BWT / occ / alphabet / sampling
+    structures must be what the model's build derives from the sorted rows of the text, and the models of
+    locate_id / locateP / locate / extract_id run on the exported structure must give the code's answers."""
+    strs = ",".join(hx(s) for s in case[4]) or "-"
+    ops = []
+    k = 0
+    for l in impl_lines:
+        t = l.split()
+        if k >= len(case[5]):
+            break
+        src = case[5][k]
+        if len(t) >= 10 and t[1] == "FM":
+            d = dict(x.split("=", 1) for x in t[2:])
+            ops.append(["fmchk", strs, src[1] if len(src) > 1 else "-", src[2] if len(src) > 2 else "-", src[3] if len(src) > 3 else "-"] +
+                       [d.get(f, "-") for f in ("n", "el", "ml", "bwt", "occ", "alpha", "ss", "sampled", "samp", "loc", "abs", "pre", "sub", "ext")])
+            k += 1
+        elif len(t) >= 2 and t[1] == "RQ":
+            ops.append(["rdskip"])
+            k += 1
+        elif not l.startswith("FAULT"):
+            ops.append(["fmchk", strs] + ["-"] * 17)
+            k += 1
+    while len(ops) < len(case[5]):
+        ops.append(["fmchk", strs] + ["-"] * 17)
+    return ops
+
+
+def fm_cases(tier, rng, k):
+    cases = []
+    r = rng.fork("fm")
+    for name, S in small_battery(tier, rng, k):
+        total = sum(len(s) + 1 for s in S)
+        if total > 2500:
+            continue        # the Lean validator sorts the suffixes of the text itself: keep the texts moderate
+        qs = [q for q in gen.queries_members_and_neighbours(r, S, 10) if q not in set(S)][:12]
+        qh = ",".join(hx(q) for q in qs) or "-"
+        ps = [p for p in gen.prefixes_of(r, S, 10) if p][:14]
+        ph = ",".join(hx(p) for p in ps) or "-"
+        ss = [p for p in gen.substrings_of(r, S, 12) if p][:16]
+        sh = ",".join(hx(p) for p in ss) or "-"
+        # sampling steps: 1, small, one that divides the text length, one above the text length, 0 (no sampling)
+        div = next((d for d in range(2, 40) if (total + 2) % d == 0), 3)
+        steps = [1, 2 + r.below(6), div, total + 5, 0]
+        chosen = steps if tier == "thorough" else [steps[r.below(2)], steps[2], steps[3 + r.below(2)]]
+        for i, st in enumerate(sorted(set(chosen))):
+            pv = {"rrr": (i + r.below(2)) % 2, "bs": r.choice([2, 3, 5, 20, 32]), "bwt": st}
+            cases.append(("fm_%s_%d" % (name, st), "fm", "FMINDEX", pv, S, [["fm", qh, ph, sh], ["reload"], ["fm", qh, ph, sh]]))
     return cases
 
 
